@@ -968,8 +968,11 @@ class Executor(Generic[TContext]):
             try:
                 await wait({task, abort}, return_when=FIRST_COMPLETED)
             except BaseException:
-                # cancelled from outside: do not orphan the wrapped work
+                # cancelled from outside: do not orphan the wrapped work, and let it
+                # finish unwinding (it may clean up asynchronously) before going on
                 task.cancel()
+                with suppress(BaseException):
+                    await wait({task})
                 raise
             finally:
                 if not abort.done():
